@@ -204,12 +204,24 @@ func readJournalRecord(buf []byte) (rec journalRec, err error) {
 		buf = buf[journalRecTagSz:]
 		switch tag {
 		case kindJournalRecTag:
+			if len(buf) < journalRecKindSz {
+				err = fmt.Errorf("journal record field truncated: tag %d", tag)
+				return
+			}
 			rec.kind = journalRecKind(buf[0])
 			buf = buf[journalRecKindSz:]
 		case addrJournalRecTag:
+			if len(buf) < journalRecAddrSz {
+				err = fmt.Errorf("journal record field truncated: tag %d", tag)
+				return
+			}
 			copy(rec.address[:], buf)
 			buf = buf[journalRecAddrSz:]
 		case timestampJournalRecTag:
+			if len(buf) < journalRecTimestampSz {
+				err = fmt.Errorf("journal record field truncated: tag %d", tag)
+				return
+			}
 			unixSeconds := readUint64(buf)
 			rec.timestamp = time.Unix(int64(unixSeconds), 0)
 			buf = buf[journalRecTimestampSz:]
@@ -223,6 +235,10 @@ func readJournalRecord(buf []byte) (rec journalRec, err error) {
 			err = fmt.Errorf("unknown record field tag: %d", tag)
 			return
 		}
+	}
+	if len(buf) < journalRecChecksumSz {
+		err = fmt.Errorf("journal record truncated before checksum")
+		return
 	}
 	rec.checksum = readUint32(buf[:journalRecChecksumSz])
 	return
